@@ -1,6 +1,6 @@
 (* C08 property theorems: statements only, each closed by `exact`.
    [rt V falsy cf f n] is one round trip of the stored model n through form f (dict / pickle / database)
-   for the code described by cf (cfg_pinned = the pinned tree, cfg_fixed = with proposed_fixes/C08-*.diff);
+   for the code described by cf (cfg_pinned = the tree as it was pinned, cfg_fixed = /repo as it is, with the five applied C08 repairs);
    [tree n] is the C01 ModelTree of n; [equiv n n'] : n' is n with parameter identities renamed injectively
    and NOTHING else changed (shape, classes, attribute names, constants, dict constants, family / limits /
    parameters of the prior at every place, assertions). *)
@@ -46,7 +46,7 @@ Theorem C08_iter_fixed : forall (V : Type) (falsy : V -> bool) (fs : list form) 
   exists n', rt_seq V falsy cfg_fixed fs n = Ok n' /\ equiv V n n'.
 Proof. exact fixed_sequences. Qed.
 
-(* any configuration containing the four applied repairs; for cfg_next (proposed C08-dict-instance-exact) [plain_cf]
+(* any configuration containing the first four repairs; for cfg_fixed (0b56c35 included) [plain_cf]
    admits components without free parameters that carry tuple or extra attributes (they are then written as "model") *)
 Theorem C08_iter_next : forall (V : Type) (falsy : V -> bool) (cf : cfg),
   fix_db_id cf = true -> fix_loggaussian cf = true -> fix_chain cf = true -> fix_falsy cf = true ->
@@ -54,12 +54,12 @@ Theorem C08_iter_next : forall (V : Type) (falsy : V -> bool) (cf : cfg),
   exists n', rt_seq V falsy cf fs n = Ok n' /\ equiv V n n'.
 Proof. exact full_sequences. Qed.
 
-Theorem C08_zero_prior_next :
-  plain_cf float cfg_next w_zero_tuple = true /\ plain_cf float cfg_next w_zero_extra = true /\
-  (exists n', dict_rt float ffalsy cfg_next w_zero_tuple = Ok n' /\
+Theorem C08_zero_prior_fixed :
+  plain_cf float cfg_fixed w_zero_tuple = true /\ plain_cf float cfg_fixed w_zero_extra = true /\
+  (exists n', dict_rt float ffalsy cfg_fixed w_zero_tuple = Ok n' /\
      ival_eqb (inst_from_paths float fbin (tree float n') [(["h"; "a"]%string, 0.5%float)])
               (inst_from_paths float fbin (tree float w_zero_tuple) [(["h"; "a"]%string, 0.5%float)]) = true) /\
-  (exists n', dict_rt float ffalsy cfg_next w_zero_extra = Ok n' /\
+  (exists n', dict_rt float ffalsy cfg_fixed w_zero_extra = Ok n' /\
      snode_eqb (smap float (forget_f float) (norm float n')) (smap float (forget_f float) (norm float w_zero_extra)) = true).
 Proof. exact zero_prior_next. Qed.
 
@@ -177,10 +177,11 @@ Theorem C08_former_witnesses_fixed :
   (exists n', rt_seq float ffalsy cfg_fixed [FPickle; FDb] (g2 (SPrior 0 (gau (Some 0))) (SConst 1%float) []) = Ok n').
 Proof. exact former_witnesses_fixed. Qed.
 
-(* ---- the full statement is refuted on the faithful model: *_refuted = defects the tree still has (arithmetic
-   operand names, components without free parameters written as instances); *_legacy_refuted = history, statements
-   about cfg_pinned (the tree as it was pinned) whose defects are repaired in /repo (111eb99, a2e2dae, a21f2bc, 04fca50):
-   their positive counterparts for the code as it is are C08_iter_fixed and C08_former_witnesses_fixed ---- *)
+(* ---- the full statement is refuted on the faithful model: *_refuted = the defect the tree still has (arithmetic
+   operand names); *_legacy_refuted = history, statements
+   about cfg_pinned (the tree as it was pinned) whose defects are repaired in /repo (111eb99, a2e2dae, a21f2bc, 04fca50,
+   0b56c35): their positive counterparts for the code as it is are C08_iter_fixed, C08_iter_next, C08_former_witnesses_fixed
+   and C08_zero_prior_fixed.  The only defect the tree still has is C08_arith_names_refuted. ---- *)
 Theorem C08_db_legacy_refuted :
   exists n n', consistent float n /\ db_rt float cfg_pinned n = Ok n' /\
                prior_count float (tree float n) = 2 /\ prior_count float (tree float n') = 1 /\ ~ equiv float n n'.
@@ -203,13 +204,13 @@ Theorem C08_arith_names_refuted :
                 /\ ~ equiv float n n').
 Proof. exact arith_names_refuted. Qed.
 
-Theorem C08_zero_prior_refuted :
+Theorem C08_zero_prior_legacy_refuted :
   exists n n', dict_rt float ffalsy cfg_pinned n = Ok n' /\
     ival_eqb (inst_from_paths float fbin (tree float n') [(["h"; "a"]%string, 0.5%float)])
              (inst_from_paths float fbin (tree float n) [(["h"; "a"]%string, 0.5%float)]) = false.
 Proof. exact zero_prior_tuple_refuted. Qed.
 
-Theorem C08_zero_prior_extra_refuted :
+Theorem C08_zero_prior_extra_legacy_refuted :
   exists n, dict_rt float ffalsy cfg_pinned n = Err ETypeError /\ pickle_rt float n = Ok n /\ db_rt float cfg_pinned n = Ok n.
 Proof. exact zero_prior_extra_refuted. Qed.
 
